@@ -1,4 +1,5 @@
 # C05 — strict mode rejects unbalanced markup and fails only with a located parse error.
+import itertools
 import parseprops, parsecase, dump, docgen
 from common import show_str
 
@@ -27,6 +28,16 @@ def cases(tier, rng):
         yield {'tol': False, 'ctx': 'default', 's': s, 'deep': True}
     for c in parseprops.base_cases(tier, rng, strict_only=True):
         yield c
+    # histories: strict parses that fail inside (nested) verbatim arguments, groups or formulas, then a faulty document that
+    # must still be rejected and a well-formed one that must still be accepted (the model answers for the last document alone)
+    import gen as _gen
+    for ctxn, pres, docs in (('A', ['\\v{if(a){b', '\\v{{{', '\\v[a[b', '{\\v{x{', '$\\v(y(('], ['a \\v{x}} b', '\\v{x}}', '\\v{f{y}}} z', '\\v[x]] b', '\\v{x} ok', 'a \\v(p)) b', '{\\v{x}}} c']),
+                             ('C', ['\\v{if(a){b', '\\v{{{{'], ['a \\v{x}} b', '\\v{x}}', '\\v{x} {y}']),
+                             ('default', ['{{{\\end{x}', '$\\verb|', '\\begin{verbatim}x', '\\[ {'], ['a}', '{a}} b', '$x$ }', '\\verb|x|}', 'ok {a} $b$'])):
+        for k in (1, 2, 3):
+            for pre in itertools.product(pres, repeat=k) if k == 1 else [tuple(rng.choice(pres) for _ in range(k)) for _ in range(6)]:
+                for s in docs:
+                    yield {'tol': False, 'ctx': _gen.CONTEXTS[ctxn], 's': s, 'pre': list(pre)}
     # located errors under the walker's line / column offset keyword arguments (oracle only)
     FAULTY = ['{abc', 'a\n{b', 'a\nb}\nc', '$x', 'a\n\n\\[ x', '\\begin{e}\nx', 'x\n\\end{e}', 'a\n b \\emph', '{a\n{b}\n', 'a}\n', '\\(x$\n']
     for offs in [[0, 0, 0], [1, 0, 0], [0, 3, 0], [2, 0, 5], [7, 1, 1], [0, 0, 2], [1, 4, 0]]:
@@ -63,6 +74,10 @@ def _line_col(s, pos, offs):
     return (line + offs[0], pos - start + (offs[1] if line == 0 else offs[2]))
 
 def run_impl(c):
+    for ps in c.get('pre') or []:
+        # earlier parses in the same process with the same context (their outcome is irrelevant here): what a failed
+        # parse leaves behind in shared objects must not decide whether the next document is accepted
+        parsecase.parse(dict(c, s=ps, pre=None))
     w, kind, p = parsecase.parse(c)
     out = parsecase.show_result(kind, p)
     s = c['s']
